@@ -109,6 +109,16 @@ def load(config):
         return _cache[config]
     p = extract(config)
     f = Facts(p, config)
+    # Rust-written models of closure-taking core methods (prelude/), lowered for the same target
+    try:
+        pp = extract("prelude-" + config.split("+")[0].split("-")[0])
+        with open(pp) as fh:
+            pd = json.load(fh)
+        f.prelude = {b["id"]: b for b in pd["bodies"]}
+        for b in pd["bodies"]:
+            f.bodies.setdefault(b["id"], b)
+    except (FactsError, OSError, ValueError, KeyError):
+        f.prelude = {}
     _cache[config] = f
     return f
 
